@@ -262,6 +262,8 @@ def bounded_misc(ctx):
             n += 1
             d = BP.compare(notation, text)
             if d: fails.append(dict(kind='mutated', notation=notation, input=text, problem=d))
+    sh_n, sh_fails = store_histories()
+    n += sh_n; fails += sh_fails
     ctx.bounded_part(evaluations=n, distinct_nontrivial=n, rule='history sequences (two earlier parses, then the probe compared with a fresh parser holding an equal predicate store), deep nesting, subscripts around the int digit limit, grammar-derived strings with random blanks and 0-2 random edits compared with the reference grammar',
                      bound='see counts', samples=[dict(kind='digits', digits=4301)] + fails[:3], label='history, nesting, mutation')
     seen = set()
@@ -271,10 +273,63 @@ def bounded_misc(ctx):
         seen.add(key)
         ctx.bounded_failure(f"C13.bounded.{f['kind']}", str(f)[:300], f, instance=str(f.get('input') or f.get('depth') or f.get('digits') or f.get('texts')))
 
+STORE_HISTORIES = {
+    'constructed':          lambda P, F1, F2, G1: P([F2, G1]),
+    'replaced-in-place':    lambda P, F1, F2, G1: _do(P([F1, G1]), lambda st: st.__setitem__(0, F2)),
+    'removed-then-added':   lambda P, F1, F2, G1: _do(P([F1, G1]), lambda st: (st.remove(F1), st.insert(0, F2))),
+    'slice-replaced':       lambda P, F1, F2, G1: _do(P([F1, G1]), lambda st: st.__setitem__(slice(0, 1), [F2])),
+    'auto-declared-then-replaced': None,     # built by parsing (see store_histories)
+}
+def _do(st, f): f(st); return st
+
+def store_histories():
+    """the same predicate declarations reached through different histories of the store (constructed, replaced in place, removed and
+    added, slice-assigned, auto-declared by an earlier parse and then replaced) give the same results for the same strings"""
+    from pytableaux.lang import Parser, Predicates, Predicate
+    from pytableaux.errors import ParseError
+    F1, F2, G1 = Predicate(0, 0, 1), Predicate(0, 0, 2), Predicate(1, 0, 1)
+    n = 0; fails = []
+    probes = {'polish': ['Fm', 'Fmn', 'Gm', 'KFmnGm', 'KFmGm', 'Hm'], 'standard': ['Fa', 'Fab', 'Ga', 'Fab & Ga', 'Fa & Ga', 'Ha']}
+    for notation in ('polish', 'standard'):
+        for auto in (True, False):
+            outcomes = {}
+            for hname, mk in STORE_HISTORIES.items():
+                res = []
+                for text in probes[notation]:
+                    n += 1
+                    try:
+                        if mk is None:
+                            p = Parser(notation, Predicates(), auto_preds=True)
+                            p('Fm' if notation == 'polish' else 'Fa'); p('Gm' if notation == 'polish' else 'Ga')      # auto-declares F/1 and G/1
+                            p.predicates[0] = F2
+                            p = Parser(notation, p.predicates, auto_preds=auto)
+                        else:
+                            p = Parser(notation, mk(Predicates, F1, F2, G1), auto_preds=auto)
+                        before = [q.spec for q in p.predicates]
+                        if before[:2] != [F2.spec, G1.spec]: res.append(('store', before)); continue
+                        try: r = ('ok', str(p(text)))
+                        except ParseError: r = ('ParseError',)
+                        except Exception as e: r = ('exception', type(e).__name__)
+                        res.append((r, sorted(q.spec for q in p.predicates)))
+                    except Exception as e: res.append(('setup-exception', type(e).__name__, str(e)[:80]))
+                outcomes[hname] = res
+            ref = outcomes['constructed']
+            for hname, res in outcomes.items():
+                if res != ref:
+                    i = next(i for i, (a, b) in enumerate(zip(res, ref)) if a != b)
+                    fails.append(dict(kind='store-history', notation=notation, auto_preds=auto, history=hname, input=probes[notation][i], got=repr(res[i])[:160], constructed_store_gives=repr(ref[i])[:160]))
+    return n, fails
+
+def replay_store_history(f):
+    n, fails = store_histories()
+    hit = [x for x in fails if x['history'] == f.get('history') and x['notation'] == f.get('notation')] or fails
+    return dict(reproduced=bool(hit), detail=str(hit[0])[:300] if hit else 'every history of the store gives the results of a constructed store')
+
 def replay(payload):
     if payload.get('kind') == 'bounded':
         from bounded import parsing as BP
         f = payload['input']
+        if f.get('kind') == 'store-history': return replay_store_history(f)
         if 'input' in f and 'notation' in f:
             preds = {tuple(int(x) for x in k.split(',')): v for k, v in (f.get('predicates') or {}).items()}
             d = BP.compare(f['notation'], f['input'], preds, f.get('auto_preds', True))
